@@ -3038,11 +3038,11 @@ DLLEXPORT int tj3Transform(tjhandle handle, const unsigned char *jpegBuf,
 
       if (dstSubsamp == TJSAMP_UNKNOWN)
         THROW("Could not determine subsampling level of destination image");
-      if ((t[i].r.x % tjMCUWidth[dstSubsamp]) != 0 ||
-          (t[i].r.y % tjMCUHeight[dstSubsamp]) != 0)
+      if ((t[i].r.x % xinfo[i].iMCU_sample_width) != 0 ||
+          (t[i].r.y % xinfo[i].iMCU_sample_height) != 0)
         THROWI("To crop this JPEG image, x must be a multiple of %d\n"
-               "and y must be a multiple of %d.", tjMCUWidth[dstSubsamp],
-               tjMCUHeight[dstSubsamp]);
+               "and y must be a multiple of %d.", xinfo[i].iMCU_sample_width,
+               xinfo[i].iMCU_sample_height);
     }
   }
 
